@@ -65,6 +65,10 @@ def configs(tier, seed):
         base = dict(p=p, vals=vals, mults=mults)
         for op in OPS:
             cfgs.append(dict(name=f"exact vec{k} {op}", kind="exact", op=op, **base))
+            if op in ("eval", "basis", "knot_insert", "degree_increase", "split"):
+                # the exact run right after the same operation on the same numbers given as floats, in one process:
+                # nothing remembered from the float run may leak into the exact one
+                cfgs.append(dict(name=f"exact vec{k} {op} after the float run", kind="exact", op=op, after_float=True, **base))
             for num in ("float", "float64"):
                 if tier == "quick" and (k + len(op) + (num == "float64") + seed) % 2:
                     continue
@@ -250,6 +254,10 @@ def body(env, cfg):
             exq = dict(mid=F(midf) * big + F(1, 10 ** 38 + 9), u2=F(u2f) * big + F(1, 10 ** 38 + 9), Q=Q, Z=Z)
         else:
             exq = dict(mid=F(midf), u2=F(u2f), Q=Q, Z=Z)
+        if cfg.get("after_float"):
+            knotsf = [fvals[i] for i, m in enumerate(mults) for _ in range(m)]
+            outputs_of(cfg["op"], Curve, Function, knotsf, P, dict(mid=midf, u2=u2f, Q=Q, Z=Z))
+            outputs_of(cfg["op"], Curve, Function, [np.float64(x) for x in knotsf], P, dict(mid=np.float64(midf), u2=np.float64(u2f), Q=Q, Z=Z))
         exact = outputs_of(cfg["op"], Curve, Function, kvq.U, P, exq)
         if kind == "exact":
             if env.sym:
